@@ -41,12 +41,41 @@ var alphaPlain = []string{"a", "b", "c", "xyz", "0", "42", " ", "Hello", "-", "_
 var alphaCSV = []string{"\"", "\"\"", ",", "\r", "\n", "\r\n", "\x00", "\xff", "\xc3", "é", "世界", "a", "b,c", " ", "x\"y"}
 var alphaHTML = []string{"<", ">", "&", "\"", "'", "+", "&amp;", "&lt;", "&#34;", "&#x7c;", "<script>", "</td>", "<b>", "\n", "a", "b c", "é", "`", "=", "/", "<!--", "-->", "]]>", "{{.}}", "\x00"}
 var alphaMD = []string{"|", "\\", "\\|", "\n", "<", ">", "&", "\"", "'", "&#x7c;", "&amp;", "a", "b", " ", "  ", "世", "*x*", "`", "---", ":", "é", "x\\"}
+// multi-line mixes of narrow and wide runs (a later line with fewer runes but more cells, etc.)
+var alphaTextLines = []string{"abc\n世界", "世界\nabcd", "é\n世", "ab\nｗｗ", "a\nbb\nccc", "世\n\nxy", "wide 世界 mix\nshort", "x\n世界界"}
+
 var alphaText = []string{"a", "bc", " ", "世", "界", "é", "é", "​", "👨‍👩‍👧", "🇯🇵", "\n", "\n\n", "x", "ｗ", "\t", "0", "Ωmega", "­"}
 
 // D20 triggers (go-runewidth clusters a leading mark with the padding space); only in the dedicated stream
 var alphaD20 = []string{"ः", "\U0001F3FB", "ൎ", "؀"}
 
+// structured text: 1-3 lines, each a run of narrow, wide or mixed characters
+func (r *rng) lineText() string {
+	var ls []string
+	for i := 0; i < 1+r.n(3); i++ {
+		var b strings.Builder
+		for j := 0; j < r.n(4); j++ {
+			switch r.n(4) {
+			case 0:
+				b.WriteString(strings.Repeat("世", 1+r.n(3)))
+			case 1:
+				b.WriteString("é")
+			default:
+				b.WriteString(strings.Repeat(string(rune('a'+r.n(26))), 1+r.n(4)))
+			}
+		}
+		ls = append(ls, b.String())
+	}
+	return strings.Join(ls, "\n")
+}
+
 func (r *rng) text(alpha []string, maxParts int) string {
+	if len(alpha) > 0 && &alpha[0] == &alphaText[0] && r.chance(1, 4) {
+		if r.chance(1, 2) {
+			return r.pick(alphaTextLines)
+		}
+		return r.lineText()
+	}
 	n := r.n(maxParts + 1)
 	var b strings.Builder
 	for i := 0; i < n; i++ {
@@ -65,6 +94,7 @@ type Gen struct {
 	goOut  []string
 	nItems int
 	stats  map[string]int
+	mid    map[string][]string // table -> wrappers created before the content (rendered mid-history)
 }
 
 func (g *Gen) do(line string) string {
@@ -126,6 +156,7 @@ type tableOpts struct {
 	sizeItems  bool
 	plainItems bool // strings only
 	postAdd    bool // allow Row.Add after attach, AddRow of pre-built rows, zero rows
+	midRender  []string // wrapper kinds created right after the table and rendered between building steps
 }
 
 func (g *Gen) cellItem(o tableOpts) string {
@@ -146,6 +177,17 @@ func (g *Gen) cellItem(o tableOpts) string {
 func (g *Gen) buildTable(o tableOpts) string {
 	r := g.r
 	t := g.do("newtable")
+	var mids []string
+	for _, k := range o.midRender {
+		mids = append(mids, g.do("wrap "+k+" "+t))
+	}
+	g.mid[t] = mids
+	maybeRender := func() {
+		if len(mids) > 0 && r.chance(1, 3) {
+			g.do("render " + mids[r.n(len(mids))])
+		}
+	}
+	defer maybeRender()
 	ncols := r.n(o.maxCols + 1)
 	hm := o.headerMode
 	if hm == 0 {
@@ -171,6 +213,7 @@ func (g *Gen) buildTable(o tableOpts) string {
 	}
 	nrows := r.n(o.maxRows + 1)
 	for i := 0; i < nrows; i++ {
+		maybeRender()
 		k := r.n(12)
 		switch {
 		case k < 2:
